@@ -287,12 +287,15 @@ impl MutationQuery {
                             let value = match &field.field_value {
                                 MutationFieldValue::Variable(v) => {
                                     let value = parameters.params.get(v).unwrap();
-
-                                    serde_json::from_str(value.as_string().unwrap())?
+                                    match value.as_string() {
+                                        Some(v) => serde_json::from_str(v)?,
+                                        None => serde_json::Value::Null,
+                                    }
                                 }
-                                MutationFieldValue::Value(v) => {
-                                    serde_json::from_str(v.as_string().unwrap())?
-                                }
+                                MutationFieldValue::Value(v) => match v.as_string() {
+                                    Some(v) => serde_json::from_str(v)?,
+                                    None => serde_json::Value::Null,
+                                },
                                 _ => unreachable!(),
                             };
                             obj.insert(String::from(&field.short_name), value);
